@@ -62,6 +62,16 @@ def _lookup(ctx, c, e, cache):
         if isinstance(kv, Exception):
             ctx.violation(f"lookup:construct:p={degree}", f"LagrangeKnotVector(degree={degree}, nel={nel}, data={knots}) raised {type(kv).__name__}: {kv}", rep)
             continue
+        # several parameters at once, in any order, the end point among them (it belongs to the last element wherever it stands)
+        for seq, exp_seq in (([knots[-1], xi], [nel - 1, e["el"]]), ([xi, knots[-1], xi], [e["el"], nel - 1, e["el"]]), ((knots[-1], knots[0]), [nel - 1, 0])):
+            try:
+                gs = [int(v) for v in np.asarray(kv.element_number(seq)).ravel()]
+            except Exception as ex:
+                ctx.violation(key + ":element:sequence:raises", f"element_number({list(seq)}) raised {type(ex).__name__}: {ex} for knots {knots}", rep)
+                break
+            if gs != exp_seq:
+                ctx.violation(key + ":element:sequence", f"element_number({list(seq)}) = {gs}, spec {exp_seq} for knots {knots}", rep)
+                break
         got = kv.element_number(xi)
         el = int(np.asarray(got).ravel()[0])
         if el != e["el"]:
